@@ -144,6 +144,94 @@ def k21_match_overrides(ctx, pid: str):
     r.floor("K21.match-override", 4)
 
 
+def helper_rules(ctx, rule: str):
+    """Helpers the typing entry points rest on, evaluated on the class table:
+    isabstract(cls) is true exactly for the classes that cannot be
+    instantiated (no cutter / no signature / abstract structure), and
+    cutter_check accepts every cutter the kits declare."""
+    from .absint import LibRef, BoundMethod
+    from .fold import Enzyme
+
+    p = ctx.program
+    r = ctx.report
+    fi = p.get_func("moclo._utils.isabstract")
+    folder = ctx.folder
+
+    def class_value(ci, name):
+        owner, raw = p.class_attr_def(ci, name)
+        if owner is None:
+            return None
+        if isinstance(raw, FuncInfo):
+            return Term("function", Term(raw.qualname))
+        from .loader import Const
+        if isinstance(raw, Const):
+            return raw.value
+        if isinstance(raw, ast.Constant):
+            return raw.value
+        if isinstance(raw, ast.Name) and raw.id == "NotImplemented":
+            return NotImplemented
+        return Term("value", Term("%s.%s" % (owner.qualname, name)))
+
+    def unresolved_abstract(ci) -> bool:
+        # inspect.isabstract: some abstractmethod of the MRO is not overridden by a non-abstract definition
+        for c in p.mro(ci):
+            if isinstance(c, ClassInfo):
+                for nm, raw in c.attrs.items():
+                    if isinstance(raw, FuncInfo) and "abstractmethod" in raw.decorators:
+                        o2, r2 = p.class_attr_def(ci, nm)
+                        if r2 is raw:
+                            return True
+        return False
+
+    def lib_hook(fr, dotted, args, kwargs, node):
+        if dotted == "inspect.isabstract" and args and isinstance(args[0], ClassInfo):
+            return unresolved_abstract(args[0])
+        if dotted == "builtins.dir" and args and isinstance(args[0], ClassInfo):
+            names = []
+            for c in p.mro(args[0]):
+                if isinstance(c, ClassInfo):
+                    names += [n for n in c.attrs if n not in names]
+            return AList(names)
+        if dotted == "builtins.getattr" and len(args) >= 2 and isinstance(args[0], ClassInfo) and isinstance(args[1], str):
+            v = class_value(args[0], args[1])
+            if v is NotImplemented:
+                return AStruct("NotImplemented")  # (NotImplemented itself means "hook declines")
+            return v if v is not None or len(args) < 3 else args[2]
+        if dotted in ("builtins.any", "builtins.all") and len(args) == 1 and isinstance(args[0], AList):
+            vals = [bool(x) if isinstance(x, bool) else x for x in args[0].items]
+            if all(isinstance(x, bool) for x in vals):
+                return any(vals) if dotted.endswith("any") else all(vals)
+        return NotImplemented
+
+    n = 0
+    for kc in ctx.inventory:
+        def make_args(I, kc=kc):
+            return (kc.ci,), {}
+
+        def post(I, o, kc=kc):
+            want = not kc.concrete
+            return [(rule + ".isabstract", kc.name, o.kind == "return" and o.value is want,
+                     "isabstract(%s) must be %s (%s): got %r" % (kc.ci.name, want, kc.abstract_reason or "cutter, role and structure are all defined", o.value if o.kind == "return" else o))]
+
+        emit(ctx, run_paths(ctx, fi, make_args, [], hooks={"lib_call": lib_hook}, post=post), fi.where())
+        n += 1
+    r.floor(rule + ".isabstract", 80)
+    # cutter_check accepts the declared cutters and is what __new__ consults
+    cc = p.get_func("moclo.core._utils.cutter_check")
+
+    def make_args2(I):
+        return (AEnzymeV(True), "SomeClass"), {}
+
+    emit(ctx, run_paths(ctx, cc, make_args2, [], post=lambda I, o: [(rule + ".cutter-check", cc.qualname, o.kind == "return" and o.value is None,
+                                                                "a 5'-overhang, known, non-blunt cutter must be accepted: %r" % (o,))]), cc.where())
+
+    def make_args3(I):
+        return (NotImplemented, "SomeClass"), {}
+
+    emit(ctx, run_paths(ctx, cc, make_args3, [], post=lambda I, o: [(rule + ".cutter-check", cc.qualname + "#undeclared", o.kind == "raise",
+                                                                "a class without cutter must be refused: %r" % (o,))]), cc.where())
+
+
 def warning_filter_rule(ctx, rule: str):
     """The UnusedModules warning must reach the caller: no warning filter
     between the walk and the caller may ignore a category that covers it."""
